@@ -198,6 +198,34 @@ Fixpoint all_int_groups (g : list (list gentry)) : option (list (list Z)) :=
 Definition check_groups_entries (groups : list (list gentry)) (d : nat) : option (list (list Z)) :=
   match all_int_groups groups with None => None | Some g => check_groups g d end.
 
+(* ---- check_groups once more, statement by statement, over the entries as Python sees them.  The primitives below give the
+   meaning of the Python expressions the function uses; translator/tr_validation.py regenerates the same term from the
+   source (Gen/ValidationRules.v::check_groups_gen) and Proofs/Validation.v proves it equal to check_groups_entries. *)
+Definition py_is_bool (e : gentry) : bool := match e with GBool _ => true | _ => false end.                 (* isinstance(i, bool) *)
+Definition py_is_int (e : gentry) : bool := match e with GInt _ | GBool _ => true | GOther => false end.    (* isinstance(i, (int, np.integer)): a bool is an int *)
+(* numeric value of an entry; only used behind the integer test (GOther would raise TypeError in min / max / <) *)
+Definition entry_z (e : gentry) : Z := match e with GInt z => z | GBool b => Z.b2z b | GOther => 0%Z end.
+Definition py_min (l : list gentry) : Z := match l with [] => 0%Z | x :: r => zmin (entry_z x) (map entry_z r) end.   (* min(l), l non-empty *)
+Definition py_max (l : list gentry) : Z := match l with [] => 0%Z | x :: r => zmax (entry_z x) (map entry_z r) end.   (* max(l), l non-empty *)
+Definition py_eqb (a b : gentry) : bool :=
+  match a, b with GOther, _ | _, GOther => false | _, _ => Z.eqb (entry_z a) (entry_z b) end.               (* a == b (True == 1) *)
+Definition py_in (x : gentry) (l : list gentry) : bool := existsb (py_eqb x) l.                              (* x in l *)
+Definition py_set_eq (a b : list gentry) : bool := forallb (fun x => py_in x b) a && forallb (fun x => py_in x a) b.  (* set(a) == set(b) *)
+Fixpoint py_set (l : list gentry) : list gentry :=                                                           (* set(l), as a list *)
+  match l with [] => [] | x :: r => if py_in x r then py_set r else x :: py_set r end.
+Definition py_range (n : nat) : list gentry := map (fun i => GInt (Z.of_nat i)) (seq 0 n).                  (* range(n) *)
+Definition check_groups_golden (groups : list (list gentry)) (n_features_in : nat) : option (list (list gentry)) :=
+  let all_indices := List.concat groups in
+  if existsb (fun i => py_is_bool i || negb (py_is_int i)) all_indices then None else
+  if Nat.ltb 0 (List.length all_indices) && (Z.ltb (py_min all_indices) 0 || Z.geb (py_max all_indices) (Z.of_nat n_features_in)) then None else
+  if Nat.eqb (List.length all_indices) n_features_in then
+    (if negb (py_set_eq all_indices (py_range n_features_in)) then None else
+     Some groups)
+  else
+    (if negb (Nat.eqb (List.length (py_set all_indices)) (List.length all_indices)) then None else
+     let new_groups := groups ++ map (fun i => [i]) (filter (fun i => negb (py_in i all_indices)) (py_range n_features_in)) in
+     Some new_groups).
+
 (* ------------------------------------------------------------------------------------------------ cross-parameter rules *)
 (* Kauri.fit: if self.min_samples_leaf * 2 > self.min_samples_split: raise ValueError *)
 Definition kauri_cross_ok (min_samples_leaf min_samples_split : Z) : bool := negb (min_samples_split <? min_samples_leaf * 2)%Z.
@@ -241,25 +269,80 @@ Fixpoint validate_first (steps : list step) : bool :=
 Record checks := { params_ok : bool; x_ok : bool; samples_ok : bool; groups_ok : bool; cross_ok : bool; affinity_ok : bool }.
 
 Definition writes (l : list string) : list step := map Write l.
-(* DiscriminativeModel.fit: _validate_params(); check_array(X); validate_data(..., ensure_min_samples=n_clusters) [sets
-   n_features_in_ when it passes]; gemini.compute_affinity(X, y) [raises for a missing or ill-shaped precomputed matrix or an
-   unusable metric]; _init_params (Douglas: mask length test first) ; optimiser_ ; training ; labels_ ; n_iter_ *)
+
+(* The body of a fit method as the sequence of its validation calls, guarded raises and first stores of fitted attributes, in
+   source order (regenerated from the ASTs by translator/tr_validation.py into Gen/ValidationRules.v; the golden_* lists below
+   are the hand-written copies the models are built from, compared with the regenerated ones in Props/C16.v). *)
+Inductive fevent :=
+| EValidateParams                         (* self._validate_params() *)
+| ECheckArray                             (* X = check_array(X) *)
+| EValidateData (min_samples : option string)   (* validate_data(self, X, ..., ensure_min_samples=self.<attr>): stores n_features_in_ *)
+| ECheckGroups                            (* check_groups(self.groups, X.shape[1]) *)
+| EAffinity                               (* gemini.compute_affinity(X, y) / self._compute_kernel(..) *)
+| ERaiseIf (test : string)                (* if <test>: raise ... ; test = the names the test reads, sorted *)
+| EInitParams                             (* self._init_params(random_state, X) *)
+| EStore (attr : string)                  (* self.<attr>_ = ... *)
+| ESuperFit                               (* super().fit(...) *)
+| EBranch (test : string) (a b : list fevent).   (* if <test>: a else: b, when the two branches differ *)
+
+Section Interp.
+Variable k : checks.
+Variable choose : string -> bool.          (* which way an EBranch goes *)
+Variable rule_ok : string -> bool.         (* whether the guarded raise with this test passes *)
+Variable init : list step.                 (* the checks and writes of _init_params *)
+Variable parent : list step.               (* the checks and writes of super().fit *)
+Fixpoint interp_ev (e : fevent) : list step :=
+  match e with
+  | EValidateParams => [Check (params_ok k)]
+  | ECheckArray => [Check (x_ok k)]
+  | EValidateData ms => Check (x_ok k) :: (match ms with Some _ => [Check (samples_ok k)] | None => [] end) ++ [Write "n_features_in_"]
+  | ECheckGroups => [Check (groups_ok k)]
+  | EAffinity => [Check (affinity_ok k)]
+  | ERaiseIf t => [Check (rule_ok t)]
+  | EInitParams => init
+  | EStore a => [Write a]
+  | ESuperFit => parent
+  | EBranch t a b => flat_map interp_ev (if choose t then a else b)
+  end.
+Definition interp (evs : list fevent) : list step := flat_map interp_ev evs.
+End Interp.
+
+(* DiscriminativeModel.fit (gemclus/_base_gemini.py) *)
+Definition golden_base_fit : list fevent :=
+  [EValidateParams; ECheckArray; EValidateData (Some "n_clusters"); EAffinity; EInitParams; EStore "optimiser_"; EStore "labels_"; EStore "n_iter_"].
+(* SparseLinearModel.fit, SparseMLPModel.fit *)
+Definition golden_sparse_fit : list fevent :=
+  [EValidateParams; EValidateData (Some "n_clusters"); ECheckGroups; EStore "groups_"; ESuperFit].
+(* KernelRIM.fit *)
+Definition golden_kernelrim_fit : list fevent :=
+  [EValidateParams; ECheckArray; EStore "input_data_"; EAffinity; EStore "training_kernel_"; ESuperFit; EStore "n_features_in_"].
+(* Kauri.fit *)
+Definition kauri_cross_test : string := "min_samples_leaf,min_samples_split".   (* a guarded raise is named by what its test reads *)
+Definition golden_kauri_fit : list fevent :=
+  [EValidateParams; ECheckArray; EValidateData (Some "min_samples_leaf"); ERaiseIf kauri_cross_test; EAffinity;
+   EStore "n_features_in_"; EStore "tree_"; EStore "labels_"; EStore "leaves_"].
+(* Douglas._init_params *)
+Definition douglas_none_test : string := "feature_mask".
+Definition douglas_len_test : string := "X,feature_mask".
+Definition douglas_sel_test : string := "feature_mask".
+Definition golden_douglas_init : list fevent :=
+  [EBranch douglas_none_test [EStore "cut_points_list_"] [ERaiseIf douglas_len_test; ERaiseIf douglas_sel_test; EStore "cut_points_list_"];
+   EStore "leaf_scores_"].
+
+(* the models of the fit methods: the golden event lists, read with the outcomes of the individual checks *)
 Definition fit_base (weights : list string) (k : checks) : list step :=
-  [Check (params_ok k); Check (x_ok k); Check (samples_ok k); Write "n_features_in_"; Check (affinity_ok k); Check (cross_ok k)] ++
-  writes weights ++ [Write "optimiser_"; Write "labels_"; Write "n_iter_"].
-(* SparseLinearModel.fit / SparseMLPModel.fit: _validate_params(); X = validate_data(self, X, ensure_min_samples=n_clusters);
-   self.groups_ = check_groups(...); super().fit *)
+  interp k (fun _ => true) (fun _ => cross_ok k) (Check (cross_ok k) :: writes weights) [] golden_base_fit.
 Definition fit_sparse (weights : list string) (k : checks) : list step :=
-  [Check (params_ok k); Check (x_ok k); Check (samples_ok k); Write "n_features_in_"; Check (groups_ok k); Write "groups_"] ++ fit_base weights k.
-(* KernelRIM.fit: _validate_params(); check_array(X); input_data_; training_kernel_ = _compute_kernel(X) [raises for an
-   unusable kernel]; super().fit(kernel) [the min-samples test is there] ; n_features_in_ *)
+  interp k (fun _ => true) (fun _ => cross_ok k) [] (fit_base weights k) golden_sparse_fit.
 Definition fit_kernelrim (k : checks) : list step :=
-  [Check (params_ok k); Check (x_ok k); Write "input_data_"; Check (affinity_ok k); Write "training_kernel_"] ++ fit_base ["W_"; "b_"] k.
-(* Kauri.fit: _validate_params(); check_array; validate_data(ensure_min_samples=min_samples_leaf) [n_features_in_];
-   cross rule; kernel [precomputed: two-dimensional, square, one row per sample]; tree_ ...; labels_; leaves_ *)
+  interp k (fun _ => true) (fun _ => cross_ok k) [] (fit_base ["W_"; "b_"] k) golden_kernelrim_fit.
 Definition fit_kauri (k : checks) : list step :=
-  [Check (params_ok k); Check (x_ok k); Check (samples_ok k); Write "n_features_in_"; Check (cross_ok k); Check (affinity_ok k);
-   Write "tree_"; Write "labels_"; Write "leaves_"].
+  interp k (fun _ => true) (fun _ => cross_ok k) [] [] golden_kauri_fit.
+(* Douglas: DiscriminativeModel.fit with _init_params spelled out; mask_none = (feature_mask is None) *)
+Definition douglas_init (mask_none len_ok sel_ok : bool) (k : checks) : list step :=
+  interp k (fun _ => mask_none) (fun t => if String.eqb t douglas_len_test then len_ok else sel_ok) [] [] golden_douglas_init.
+Definition fit_douglas (mask_none len_ok sel_ok : bool) (k : checks) : list step :=
+  interp k (fun _ => true) (fun _ => true) (douglas_init mask_none len_ok sel_ok k) [] golden_base_fit.
 (* the order the property asks for: all checks, then all writes *)
 Definition fit_validate_first (attrs : list string) (k : checks) : list step :=
   [Check (params_ok k); Check (x_ok k); Check (samples_ok k); Check (groups_ok k); Check (cross_ok k); Check (affinity_ok k)] ++ writes attrs.
@@ -269,4 +352,4 @@ Definition zmul := Z.mul.
 Definition zopp := Z.opp.
 Definition zltb := Z.ltb.
 Definition mkq (n : Z) (d : positive) : Q := Qmake n d.
-(* EXTRACT: value ext constraint satisfied satisfied_any effective_sat lookup_param check_groups check_groups_entries kauri_cross_ok douglas_mask_ok data_ok precomputed_ok run validate_first fit_base fit_sparse fit_kernelrim fit_kauri fit_validate_first zadd zmul zopp zltb mkq subclass_of has_method *)
+(* EXTRACT: value ext constraint satisfied satisfied_any effective_sat lookup_param check_groups check_groups_entries kauri_cross_ok douglas_mask_ok data_ok precomputed_ok run validate_first fit_base fit_sparse fit_kernelrim fit_kauri fit_douglas fit_validate_first zadd zmul zopp zltb mkq subclass_of has_method *)
